@@ -40,19 +40,18 @@ static void run_case(vr::Runner &R, const Cfg &cfg, const vg::EdgeList &el, cons
         auto chk = vb::check_cycle_set<W>(b, w, cycles, dim);
         if (verbose) printf("variant=%s returned=%s emitted_total=%s weights=%s count=%zu\n", vv::variant_name(var),
                 vg::fmt_w((double) ret).c_str(), vg::fmt_w(chk.total).c_str(), vb::vec_str(chk.weights).c_str(), chk.masks.size());
-        if (!chk.ok) {
-            if (cfg.do_c01) R.violation({vv::variant_name(var), chk.cls, cs(), chk.msg});
-            continue;   // C02 is only meaningful for a structurally valid output
-        }
+        if (!chk.ok && cfg.do_c01) R.violation({vv::variant_name(var), chk.cls, cs(), chk.msg});
         if (cfg.do_c02) {
+            // C02 speaks about the weight of what was emitted; it is evaluated whenever the emitted edges can be weighed at all
+            if (!chk.identifiable) { R.violation({vv::variant_name(var), "unweighable-output", cs(), "emitted lists contain descriptors that are not edges of the input, so their weight is undefined"}); continue; }
             if (!have_ref) { ref = vg::reference_mcb<double>(cyc, w, dim); std::sort(ref.weights.begin(), ref.weights.end()); have_ref = true; }
-            if ((double) ret != chk.total) {
-                R.violation({vv::variant_name(var), "return-mismatch", cs(), "returned " + vg::fmt_w((double) ret) + " but emitted cycles weigh " + vg::fmt_w(chk.total)});
+            if ((double) ret != chk.listed_total) {
+                R.violation({vv::variant_name(var), "return-mismatch", cs(), "returned " + vg::fmt_w((double) ret) + " but emitted cycles weigh " + vg::fmt_w(chk.listed_total)});
                 continue;
             }
-            std::vector<double> ws = chk.weights; std::sort(ws.begin(), ws.end());
-            if (chk.total != ref.total)
-                R.violation({vv::variant_name(var), "not-minimum", cs(), "basis weight " + vg::fmt_w(chk.total) + ", optimum " + vg::fmt_w(ref.total)});
+            std::vector<double> ws = chk.listed_weights; std::sort(ws.begin(), ws.end());
+            if (chk.listed_total != ref.total)
+                R.violation({vv::variant_name(var), "not-minimum", cs(), "emitted weight " + vg::fmt_w(chk.listed_total) + ", optimum " + vg::fmt_w(ref.total)});
             else if (ws != ref.weights)
                 R.violation({vv::variant_name(var), "weight-vector", cs(), "sorted cycle weights " + vb::vec_str(ws) + " differ from reference " + vb::vec_str(ref.weights)});
         }
